@@ -15,7 +15,7 @@
    formal derivative [fs_D] satisfies the Leibniz rule, and the composition of a
    multivariate polynomial (Model/Poly.v) with a tuple of series is a ring
    homomorphism obeying the chain rule. *)
-From Coq Require Import List Arith Lia Bool Setoid Morphisms.
+From Coq Require Import List Arith Lia Bool ZArith Setoid Morphisms Ring Field.
 From PD Require Import Base.Field Base.Matrix Model.Poly.
 Import ListNotations.
 
@@ -87,3 +87,276 @@ Section Series.
   Definition to_deriv (a : series) : list F :=
     mkv (length a) (fun n => ffact n * sget a n).
 End Series.
+
+(* ================================================================= lemmas *)
+Section SeriesLemmas.
+  Context {F : Type} `{FL : FieldLaws F}.
+  Local Open Scope F_scope.
+  Add Field FSer : fth.
+  Local Notation fs := (@fs F).
+  Local Notation series := (@series F).
+
+  (* ------------------------------------------------- naturals in the field *)
+  Lemma fpos_succ' p : fpos (Pos.succ p) = 1 + fpos p.
+  Proof. induction p as [p IH|p IH|]; simpl; [rewrite IH; ring|ring|ring]. Qed.
+  Lemma fnat_O : fnat 0 = (0 : F).
+  Proof. reflexivity. Qed.
+  Lemma fnat_succ n : fnat (S n) = 1 + fnat n.
+  Proof.
+    destruct n as [|n].
+    - unfold fnat; simpl. ring.
+    - unfold fnat. change (Z.of_nat (S (S n))) with (Zpos (Pos.succ (Pos.of_succ_nat n))).
+      change (Z.of_nat (S n)) with (Zpos (Pos.of_succ_nat n)). simpl fZ.
+      apply fpos_succ'.
+  Qed.
+  Lemma fnat_plus n m : fnat (n + m) = fnat n + fnat m.
+  Proof.
+    induction n as [|n IH].
+    - rewrite fnat_O. simpl. ring.
+    - change (S n + m)%nat with (S (n + m)). rewrite !fnat_succ, IH. ring.
+  Qed.
+  Lemma fnat_neq0 n : n <> 0%nat -> fnat n <> (0 : F).
+  Proof.
+    destruct n as [|n]; intro Hn; [congruence|].
+    unfold fnat. change (Z.of_nat (S n)) with (Zpos (Pos.of_succ_nat n)). simpl fZ.
+    apply char0.
+  Qed.
+  Lemma f1_neq0 : (1 : F) <> 0.
+  Proof. exact (F_1_neq_0 fth). Qed.
+  Lemma fmul_neq0 (x y : F) : x <> 0 -> y <> 0 -> x * y <> 0.
+  Proof.
+    intros Hx Hy Hxy. apply Hx.
+    transitivity (x * y / y); [field; exact Hy|]. rewrite Hxy. field. exact Hy.
+  Qed.
+  Lemma ffact_neq0 n : ffact n <> (0 : F).
+  Proof.
+    induction n as [|n IH]; simpl; [exact f1_neq0|].
+    apply fmul_neq0; [apply fnat_neq0; discriminate|exact IH].
+  Qed.
+
+  (* ------------------------------------------------------------ storage *)
+  Lemma sget_mkv N (f : nat -> F) n : n < N -> sget (mkv N f) n = f n.
+  Proof. exact (vget_mkv N f n). Qed.
+  Lemma sget_mkv_out N (f : nat -> F) n : N <= n -> sget (mkv N f) n = 0.
+  Proof. exact (vget_mkv_out N f n). Qed.
+  Lemma sget_nil n : sget (@nil F) n = 0.
+  Proof. unfold sget. destruct n; reflexivity. Qed.
+
+  (* --------------------------------------------------- pointwise equality *)
+  (* an inductive wrapper, so that [rewrite] treats it as a setoid relation *)
+  Inductive fs_eq (a b : fs) : Prop := fs_eq_intro : (forall n, a n = b n) -> fs_eq a b.
+  Local Infix "==" := fs_eq (at level 70).
+  Lemma fs_eq_at a b : a == b -> forall n, a n = b n.
+  Proof. intros [E]. exact E. Qed.
+
+  Lemma fs_eq_refl a : a == a. Proof. constructor. intro n. reflexivity. Qed.
+  Lemma fs_eq_sym a b : a == b -> b == a. Proof. intros [E]. constructor. intro n. symmetry. apply E. Qed.
+  Lemma fs_eq_trans a b c : a == b -> b == c -> a == c.
+  Proof. intros [E1] [E2]. constructor. intro n. rewrite E1. apply E2. Qed.
+
+  #[global] Instance fs_eq_equiv : Equivalence fs_eq.
+  Proof. split; [exact fs_eq_refl|exact fs_eq_sym|exact fs_eq_trans]. Qed.
+
+  #[global] Instance fs_add_proper : Proper (fs_eq ==> fs_eq ==> fs_eq) fs_add.
+  Proof. intros a a' [Ea] b b' [Eb]. constructor. intro n. unfold fs_add. rewrite Ea, Eb. reflexivity. Qed.
+  #[global] Instance fs_sub_proper : Proper (fs_eq ==> fs_eq ==> fs_eq) fs_sub.
+  Proof. intros a a' [Ea] b b' [Eb]. constructor. intro n. unfold fs_sub. rewrite Ea, Eb. reflexivity. Qed.
+  #[global] Instance fs_opp_proper : Proper (fs_eq ==> fs_eq) fs_opp.
+  Proof. intros a a' [Ea]. constructor. intro n. unfold fs_opp. rewrite Ea. reflexivity. Qed.
+  #[global] Instance fs_scale_proper c : Proper (fs_eq ==> fs_eq) (fs_scale c).
+  Proof. intros a a' [Ea]. constructor. intro n. unfold fs_scale. rewrite Ea. reflexivity. Qed.
+  #[global] Instance fs_mul_proper : Proper (fs_eq ==> fs_eq ==> fs_eq) fs_mul.
+  Proof.
+    intros a a' [Ea] b b' [Eb]. constructor. intro n. unfold fs_mul. apply vsum_ext. intros i _.
+    rewrite Ea, Eb. reflexivity.
+  Qed.
+  #[global] Instance fs_D_proper : Proper (fs_eq ==> fs_eq) fs_D.
+  Proof. intros a a' [Ea]. constructor. intro n. unfold fs_D. rewrite Ea. reflexivity. Qed.
+  #[global] Instance fs_pow_proper : Proper (fs_eq ==> eq ==> fs_eq) fs_pow.
+  Proof.
+    intros a a' Ea e e' <-. induction e as [|e IH]; simpl; [reflexivity|].
+    apply fs_mul_proper; [exact Ea|exact IH].
+  Qed.
+
+  (* ---------------------------------------------------------- sum tools *)
+  Lemma vsum_S_first n (f : nat -> F) : vsum (S n) f = f 0%nat + vsum n (fun i => f (S i)).
+  Proof.
+    induction n as [|n IH]; [simpl; ring|].
+    change (vsum (S (S n)) f) with (vsum (S n) f + f (S n)). rewrite IH. simpl. ring.
+  Qed.
+
+  (* sum over the triangle m <= n, i <= m  =  sum over i <= n, j <= n - i *)
+  Lemma vsum_triangle n (g : nat -> nat -> F) :
+    vsum (S n) (fun m => vsum (S m) (fun i => g i m))
+    = vsum (S n) (fun i => vsum (S (n - i)) (fun j => g i (i + j)%nat)).
+  Proof.
+    induction n as [|n IH].
+    - simpl. ring.
+    - change (vsum (S (S n)) (fun m => vsum (S m) (fun i => g i m)))
+        with (vsum (S n) (fun m => vsum (S m) (fun i => g i m))
+              + vsum (S (S n)) (fun i => g i (S n))).
+      rewrite IH.
+      change (vsum (S (S n)) (fun i => vsum (S (S n - i)) (fun j => g i (i + j)%nat)))
+        with (vsum (S n) (fun i => vsum (S (S n - i)) (fun j => g i (i + j)%nat))
+              + vsum (S (S n - S n)) (fun j => g (S n) (S n + j)%nat)).
+      rewrite (vsum_ext (S n) (fun i => vsum (S (S n - i)) (fun j => g i (i + j)%nat))
+                        (fun i => vsum (S (n - i)) (fun j => g i (i + j)%nat) + g i (S n))).
+      2:{ intros i Hi. replace (S n - i)%nat with (S (n - i)) by lia.
+          change (vsum (S (S (n - i))) (fun j => g i (i + j)%nat))
+            with (vsum (S (n - i)) (fun j => g i (i + j)%nat) + g i (i + S (n - i))%nat).
+          replace (i + S (n - i))%nat with (S n) by lia. reflexivity. }
+      rewrite vsum_add.
+      replace (S n - S n)%nat with 0%nat by lia.
+      change (vsum (S (S n)) (fun i => g i (S n)))
+        with (vsum (S n) (fun i => g i (S n)) + g (S n) (S n)).
+      change (vsum 1 (fun j => g (S n) (S n + j)%nat)) with (0 + g (S n) (S n + 0)%nat).
+      replace (S n + 0)%nat with (S n) by lia. ring.
+  Qed.
+
+  (* --------------------------------------------------------- ring laws *)
+  Lemma fs_add_comm a b : fs_add a b == fs_add b a.
+  Proof. constructor. intro n. unfold fs_add. ring. Qed.
+  Lemma fs_add_assoc a b c : fs_add a (fs_add b c) == fs_add (fs_add a b) c.
+  Proof. constructor. intro n. unfold fs_add. ring. Qed.
+  Lemma fs_add_0_l a : fs_add (fs_const 0) a == a.
+  Proof. constructor. intro n. unfold fs_add, fs_const. destruct n; ring. Qed.
+  Lemma fs_sub_def a b : fs_sub a b == fs_add a (fs_opp b).
+  Proof. constructor. intro n. unfold fs_sub, fs_add, fs_opp. ring. Qed.
+  Lemma fs_opp_def a : fs_add a (fs_opp a) == fs_const 0.
+  Proof. constructor. intro n. unfold fs_add, fs_opp, fs_const. destruct n; ring. Qed.
+
+  Lemma vsum_rev n (f : nat -> F) : vsum (S n) f = vsum (S n) (fun i => f (n - i)%nat).
+  Proof.
+    induction n as [|n IH]; [reflexivity|].
+    rewrite (vsum_S_first (S n) (fun i => f (S n - i)%nat)).
+    change (vsum (S (S n)) f) with (vsum (S n) f + f (S n)).
+    rewrite IH. replace (S n - 0)%nat with (S n) by lia.
+    change (vsum (S n) (fun i => f (S n - S i)%nat)) with (vsum (S n) (fun i => f (n - i)%nat)).
+    ring.
+  Qed.
+
+  Lemma fs_mul_comm a b : fs_mul a b == fs_mul b a.
+  Proof.
+    constructor. intro n. unfold fs_mul. rewrite vsum_rev. apply vsum_ext. intros i Hi.
+    replace (n - (n - i))%nat with i by lia. ring.
+  Qed.
+
+  Lemma fs_mul_assoc a b c : fs_mul a (fs_mul b c) == fs_mul (fs_mul a b) c.
+  Proof.
+    constructor. intro n. unfold fs_mul.
+    (* rhs: sum_{m<=n} (sum_{i<=m} a_i b_{m-i}) c_{n-m} *)
+    rewrite (vsum_ext (S n)
+               (fun m => vsum (S m) (fun i => a i * b (m - i)%nat) * c (n - m)%nat)
+               (fun m => vsum (S m) (fun i => a i * b (m - i)%nat * c (n - m)%nat)))
+      by (intros m _; rewrite vsum_scale_r; reflexivity).
+    rewrite (vsum_triangle n (fun i m => a i * b (m - i)%nat * c (n - m)%nat)).
+    apply vsum_ext. intros i Hi. rewrite <- vsum_scale_l. apply vsum_ext. intros j Hj.
+    replace (i + j - i)%nat with j by lia. replace (n - (i + j))%nat with (n - i - j)%nat by lia.
+    ring.
+  Qed.
+
+  Lemma fs_mul_1_l a : fs_mul (fs_const 1) a == a.
+  Proof.
+    constructor. intro n. unfold fs_mul. rewrite vsum_S_first.
+    rewrite (vsum_ext n _ (fun _ => 0)) by (intros i _; simpl; ring).
+    rewrite vsum_zero. simpl. replace (n - 0)%nat with n by lia. ring.
+  Qed.
+  Lemma fs_mul_0_l a : fs_mul (fs_const 0) a == fs_const 0.
+  Proof.
+    constructor. intro n. unfold fs_mul.
+    rewrite (vsum_ext (S n) _ (fun _ => 0)) by (intros i _; unfold fs_const; destruct i; ring).
+    rewrite vsum_zero. unfold fs_const. destruct n; reflexivity.
+  Qed.
+  Lemma fs_distr_l a b c : fs_mul (fs_add a b) c == fs_add (fs_mul a c) (fs_mul b c).
+  Proof.
+    constructor. intro n. unfold fs_mul, fs_add. rewrite <- vsum_add. apply vsum_ext. intros i _. ring.
+  Qed.
+
+  Lemma fs_ring_theory :
+    ring_theory (fs_const 0) (fs_const 1) fs_add fs_mul fs_sub fs_opp fs_eq.
+  Proof.
+    constructor.
+    - exact fs_add_0_l.
+    - exact fs_add_comm.
+    - exact fs_add_assoc.
+    - exact fs_mul_1_l.
+    - exact fs_mul_comm.
+    - exact fs_mul_assoc.
+    - exact fs_distr_l.
+    - exact fs_sub_def.
+    - exact fs_opp_def.
+  Qed.
+  Add Ring FSring : fs_ring_theory.
+
+  Lemma fs_scale_mul c a : fs_scale c a == fs_mul (fs_const c) a.
+  Proof.
+    constructor. intro n. unfold fs_scale, fs_mul. rewrite vsum_S_first.
+    rewrite (vsum_ext n _ (fun _ => 0)) by (intros i _; simpl; ring).
+    rewrite vsum_zero. simpl. replace (n - 0)%nat with n by lia. ring.
+  Qed.
+  Lemma fs_const_add x y : fs_const (x + y) == fs_add (fs_const x) (fs_const y).
+  Proof. constructor. intro n. unfold fs_add, fs_const. destruct n; ring. Qed.
+  Lemma fs_const_mul x y : fs_const (x * y) == fs_mul (fs_const x) (fs_const y).
+  Proof. rewrite <- fs_scale_mul. constructor. intro n. unfold fs_scale, fs_const. destruct n; ring. Qed.
+
+  Lemma fs_pow_add a e1 e2 : fs_pow a (e1 + e2) == fs_mul (fs_pow a e1) (fs_pow a e2).
+  Proof.
+    induction e1 as [|e1 IH]; simpl.
+    - ring.
+    - rewrite IH. ring.
+  Qed.
+
+  (* ------------------------------------------------- formal derivative *)
+  Lemma fs_D_add a b : fs_D (fs_add a b) == fs_add (fs_D a) (fs_D b).
+  Proof. constructor. intro n. unfold fs_D, fs_add. ring. Qed.
+  Lemma fs_D_scale c a : fs_D (fs_scale c a) == fs_scale c (fs_D a).
+  Proof. constructor. intro n. unfold fs_D, fs_scale. ring. Qed.
+  Lemma fs_D_const c : fs_D (fs_const c) == fs_const 0.
+  Proof. constructor. intro n. unfold fs_D, fs_const. destruct n; ring. Qed.
+  Lemma fs_D_time t0 : fs_D (fs_time t0) == fs_const 1.
+  Proof.
+    constructor. intro n. unfold fs_D, fs_time, fs_const. destruct n as [|[|n]].
+    - unfold fnat; simpl. ring.
+    - ring.
+    - ring.
+  Qed.
+
+  (* Leibniz rule for the Cauchy product *)
+  Lemma fs_D_mul a b : fs_D (fs_mul a b) == fs_add (fs_mul (fs_D a) b) (fs_mul a (fs_D b)).
+  Proof.
+    constructor. intro n. unfold fs_D, fs_add, fs_mul.
+    set (T := fun i => a i * b (S n - i)%nat).
+    assert (E1 : vsum (S n) (fun i => fnat (S i) * a (S i) * b (n - i)%nat)
+                 = vsum (S (S n)) (fun i => fnat i * T i)).
+    { rewrite (vsum_S_first (S n) (fun i => fnat i * T i)). rewrite fnat_O.
+      transitivity (0 + vsum (S n) (fun i => fnat (S i) * T (S i))); [|ring].
+      transitivity (vsum (S n) (fun i => fnat (S i) * T (S i))); [|ring].
+      apply vsum_ext. intros i Hi. unfold T. change (S n - S i)%nat with (n - i)%nat. ring. }
+    assert (E2 : vsum (S n) (fun i => a i * (fnat (S (n - i)) * b (S (n - i))))
+                 = vsum (S (S n)) (fun i => fnat (S n - i) * T i)).
+    { change (vsum (S (S n)) (fun i => fnat (S n - i) * T i))
+        with (vsum (S n) (fun i => fnat (S n - i) * T i) + fnat (S n - S n) * T (S n)).
+      replace (S n - S n)%nat with 0%nat by lia. rewrite fnat_O.
+      transitivity (vsum (S n) (fun i => fnat (S n - i) * T i)); [|ring].
+      apply vsum_ext. intros i Hi. unfold T.
+      replace (S n - i)%nat with (S (n - i)) by lia. ring. }
+    rewrite E1, E2. rewrite <- vsum_add. rewrite <- vsum_scale_l.
+    apply vsum_ext. intros i Hi. fold (T i).
+    replace (fnat (S n)) with (fnat (i + (S n - i))) by (f_equal; lia).
+    rewrite fnat_plus. ring.
+  Qed.
+
+  Lemma fs_D_pow a e :
+    fs_D (fs_pow a (S e)) == fs_mul (fs_scale (fnat (S e)) (fs_pow a e)) (fs_D a).
+  Proof.
+    induction e as [|e IH].
+    - simpl. rewrite fs_D_mul, fs_D_const. rewrite !fs_scale_mul.
+      assert (E : fs_const (fnat 1) == fs_const 1).
+      { constructor. intro n. unfold fnat; simpl. reflexivity. }
+      rewrite E. ring.
+    - change (fs_pow a (S (S e))) with (fs_mul a (fs_pow a (S e))).
+      rewrite fs_D_mul, IH. rewrite !fs_scale_mul.
+      rewrite (fnat_succ (S e)). rewrite fs_const_add.
+      change (fs_pow a (S e)) with (fs_mul a (fs_pow a e)). ring.
+  Qed.
+End SeriesLemmas.
